@@ -692,6 +692,29 @@ func c18GrpGen(rng *c18Rng) c18Grp {
 		}
 		grp.Advisories = append(grp.Advisories, a)
 	}
+	if len(grp.Advisories) >= 2 && rng.intn(2) == 0 {
+		// by construction: the later advisories spare the current version of a member the first
+		// advisory lists and affect the first version above it that the first advisory spares
+		// for that member, so that the follow-up attempt meets several advisories on one version
+		for _, fe := range first.Entries {
+			cur := grp.Members[fe.Pkg].Current
+			tA := strings.IndexByte(fe.Mask[cur+1:], '0')
+			if tA < 0 {
+				continue
+			}
+			tA += cur + 1
+			for k := 1; k < len(grp.Advisories); k++ {
+				for x := range grp.Advisories[k].Entries {
+					e := &grp.Advisories[k].Entries[x]
+					if e.Pkg == fe.Pkg {
+						m := []byte(e.Mask)
+						m[cur], m[tA] = '0', '1'
+						e.Mask = string(m)
+					}
+				}
+			}
+		}
+	}
 	return grp
 }
 
@@ -699,7 +722,7 @@ func c18GrpGen(rng *c18Rng) c18Grp {
 func c18GrpPhase(t *testing.T, col *ev.Collector, e *ev.Enumerator) bool {
 	shard, shards := ev.Shard()
 	rng := &c18Rng{s: ev.Seed() ^ 0x10c5739018}
-	count := 360
+	count := 320
 	if ev.Thorough() {
 		count = 24000
 	}
